@@ -183,10 +183,24 @@ class HTTP2Connection(ConnectionInterface):
                     # Once the lock is released the stream ID may belong to
                     # another request: whatever happens, it is given up here.
                     stream_given_up = True
-                    with ShieldCancellation():
-                        closing = {"stream_id": stream_id}
-                        with Trace("response_closed", logger, request, closing):
-                            self._response_closed(request, stream_id=stream_id)
+                    released = False
+                    try:
+                        with ShieldCancellation():
+                            closing = {"stream_id": stream_id}
+                            with Trace(
+                                "response_closed", logger, request, closing
+                            ):
+                                released = True
+                                self._response_closed(
+                                    request, stream_id=stream_id
+                                )
+                    finally:
+                        if not released:
+                            # The trace callback failed, or was cancelled.
+                            with ShieldCancellation():
+                                self._response_closed(
+                                    request, stream_id=stream_id
+                                )
                     raise
             with Trace("send_request_body", logger, request, kwargs):
                 self._send_request_body(request=request, stream_id=stream_id)
@@ -218,8 +232,15 @@ class HTTP2Connection(ConnectionInterface):
                     self._request_closed()
                 else:
                     kwargs = {"stream_id": stream_id}
-                    with Trace("response_closed", logger, request, kwargs):
-                        self._response_closed(request, stream_id=stream_id)
+                    released = False
+                    try:
+                        with Trace("response_closed", logger, request, kwargs):
+                            released = True
+                            self._response_closed(request, stream_id=stream_id)
+                    finally:
+                        if not released:
+                            # The trace callback failed, or was cancelled.
+                            self._response_closed(request, stream_id=stream_id)
 
             if isinstance(exc, h2.exceptions.ProtocolError):
                 # One case where h2 can raise a protocol error is when a
